@@ -936,6 +936,9 @@ class Engine:
             raise Unsupported('bytes() of ' + repr(o))
         if f is list and len(args) == 1 and isinstance(args[0], SymRange) and not args[0].is_concrete():
             return SymConcat(args[0], [])
+        if f in (sorted, list, tuple, filter, len) and args and hasattr(args[-1], '__pyvc_seqop__'):
+            # ghost sequences of symbolic length decide for themselves what sorted / list / filter of them is
+            return args[-1].__pyvc_seqop__(self, f, args, kwargs)
         if f in (enumerate, reversed, zip, iter, sorted, set, sum, list, tuple, frozenset):
             conv = [self.iterate(a) for a in args]
             if f is sum:
